@@ -9,7 +9,7 @@ R3 paired legs         : in units calling both FX primitives the numeraire legs 
 R4 refusal             : every cross-currency booking is dominated by an `ExternalSector is None -> raise` test."""
 import ast
 
-from ..loader import AnalysisError
+from ..loader import AnalysisError, call_name
 from .. import effects
 from ..ledger import UnitLedger, show_scenario
 from ..algebra import Poly, short
@@ -40,6 +40,19 @@ def run(prog, check):
         L = UnitLedger(it)
         fx = [x for x in L.entries if hasattr(x, 'fx_name')]
         if not fx:
+            # a unit whose code calls the FX primitives but whose interpreted paths never book an FX leg: the legs sit
+            # behind a condition that does not follow from the flow being cross-zone
+            m0 = prog.resolve_method(ci, mname)
+            from ..inline import flatten as _fl
+            calls_fx = any(isinstance(c, ast.Call) and call_name(c) in ('_SendMoney', '_ReceiveMoney')
+                           for c in ast.walk(_fl(prog, m0).node)) if m0 is not None else False
+            if calls_fx and (m0.key, 'nofx') not in seen:
+                seen.add((m0.key, 'nofx'))
+                check.saw(m0)
+                ukey0 = '%s::%s.%s' % (ci.module.rel, ci.name, 'G' if mname == '_GenerateEquations' else mname)
+                check.ob('C07.R2', '%s::fx-legs-booked' % ukey0, False, m0.where,
+                         'the method calls the FX primitives, but on no interpreted path are the FX legs booked under the condition '
+                         '"the two parties are in different currency zones"', 'a cross-zone flow followed by a domestic one')
             continue
         m = prog.resolve_method(ci, mname)
         sig = tuple(e.key() for e in it.effects if e.phase == 'gen' and e.kind in ('cashflow', 'blockterm'))
